@@ -398,7 +398,10 @@ func c26RunStop(c c26Stop) (sig string, err error) {
 				}
 			}
 			cancel()
-			atomic.StoreInt32(&asyncSeen, atomic.LoadInt32(&w.n))
+			seen := atomic.LoadInt32(&w.n)
+			atomic.StoreInt32(&asyncSeen, seen)
+			atomic.StoreInt32(&reqFrame, seen)
+			atomic.StoreInt32(&requested, 1) // from here on the serial writer unwinds a Run that keeps producing frames
 		}()
 	}
 	unwound := false
